@@ -71,7 +71,7 @@ def gen_value(rng, cls, f, cname):
     if d_type is float:
         kind = scaled_kind(f)
         if kind == 'ROT':
-            v = rng.choice([0, 1, -1, 5, -20, 100, -127, 127, -128, rng.randint(-130, 130), rng.choice([-1, 1]) * rng.choice([709, 720, 300])])
+            v = rng.choice([0, 1, -1, 5, -20, 100, -127, 127, -128, 128, 126, -126, 129, -129, rng.randint(-130, 130), rng.choice([-1, 1]) * rng.choice([709, 720, 300])])
             if v in (127, -127):
                 return float(v), 'e:TurnRate:%d' % v
             if v == -128:
